@@ -4,7 +4,8 @@
 //          (ranges (c r1 c1 r2 c2) (a r1 c1 r2 c2) ...)     cause / annotation ranges, as the report gives them
 //          <nlines> (linelens ...) (linewidths ...)          line table of the newline-terminated input
 //          (flags <fmtpanic>? <msgpanic>? <emptyreport>? <nokind>?)
-//          (info <nerr> <ngraphemes> <ms>))                  diagnostics, ignored by the judge
+//          (info <nerr> <ngraphemes> <ms>)                   diagnostics, ignored by the judge
+//          (hook off | <n> (<site> <before> <after> <len>)...))   replay log of the guarded hook (first run), see below
 // nlines / linelens / linewidths are computed the way the parser and TextFormatter do it:
 // graphemes::init_source (appends "\n"), a line ends at every grapheme for which graphemes::is_new_line holds,
 // linelens counts the graphemes of the line without its terminator, linewidths sums graphemes::width (columns are
@@ -13,6 +14,21 @@ use mech_core::*;
 use mech_syntax::*;
 use serde_json::Value as J;
 use std::panic::{catch_unwind, AssertUnwindSafe};
+
+// The guarded hook (proposed/C09-hook.diff, `#[cfg(mech_lang_mech_verif)] pub mod verif_hook` in parser.rs) is used only
+// when this crate is built with `--features c09hook`; without the feature (and without the hook in /repo) `(hook off)`.
+#[cfg(feature = "c09hook")]
+fn hook_start() { mech_syntax::parser::verif_hook::start(); }
+#[cfg(feature = "c09hook")]
+fn hook_take() -> String {
+  let (n, v) = mech_syntax::parser::verif_hook::take();
+  let es: Vec<String> = v.iter().take(20000).map(|(s, a, b, l)| format!("({} {} {} {})", s, a, b, l)).collect();
+  format!("(hook {} {})", n, es.join(" "))
+}
+#[cfg(not(feature = "c09hook"))]
+fn hook_start() {}
+#[cfg(not(feature = "c09hook"))]
+fn hook_take() -> String { "(hook off)".to_string() }
 
 #[derive(PartialEq)]
 enum Outcome {
@@ -55,7 +71,9 @@ pub fn line_table(src: &str) -> (usize, Vec<usize>, Vec<usize>, usize) {
 pub fn mode_parse(j: &J) -> String {
   let src = j["src"].as_str().unwrap_or("");
   let t0 = std::time::Instant::now();
+  hook_start();
   let a = run_once(src);
+  let hook = hook_take();
   let b = run_once(src);
   let ms = t0.elapsed().as_millis();
   let same = if a == b { 1 } else { 0 };
@@ -89,6 +107,6 @@ pub fn mode_parse(j: &J) -> String {
     }
   };
   let js = |v: &Vec<usize>| v.iter().map(|x| x.to_string()).collect::<Vec<_>>().join(" ");
-  format!("(parse {} {} (ranges {}) {} (linelens {}) (linewidths {}) (flags {}) (info {} {} {}))",
-    tag, same, ranges.join(" "), nlines, js(&lens), js(&widths), flags.join(" "), nerr, ng, ms)
+  format!("(parse {} {} (ranges {}) {} (linelens {}) (linewidths {}) (flags {}) (info {} {} {}) {})",
+    tag, same, ranges.join(" "), nlines, js(&lens), js(&widths), flags.join(" "), nerr, ng, ms, hook)
 }
